@@ -475,18 +475,28 @@ Definition paccept (c : config) (pg : program) (fuel : nat) (f : fs) (g : fs) (t
   exists b, prun c pg fuel f bk0 [] = Ok (g, b, t, h) /\ b_done b = true.
 
 (* ---- probing programs (audit defect A8): stale independence UP TO PROBES ----
-   run_mapping looks whether an output exists and, when it does not, probes the path:
-     if not pth.exists(): open(pth, 'w').write('junk'); pth.unlink()
-   This is the one place where a real stage branches on whether an earlier run left an
-   output.  A probing program is a CORE that cannot see the answer of a Stat on a set O' of
-   declared outputs, wrapped so that a Stat the core FLAGS is followed by the probe when the
-   answer was "absent".
+   run_mapping looks whether an output exists and, when it does not, probes the path
+   (cli/from_specified_markers.py:122-139, after the symbolic-link fix):
+     if not pth.exists():                       stat(pth)              -> ENOENT
+         if pth.is_symlink(): ...               lstat(pth)             -> ENOENT
+         open(pth, 'w').write('junk')           open(O_CREAT|O_TRUNC)
+         pth.unlink()                           unlink
+   and a single stat(pth) when the path exists: TWO Stats on the path where it is absent, ONE
+   where an earlier run left it.  This is the one place where a real stage branches on whether
+   an earlier run left an output.  A probing program is a CORE that cannot see the answer of a
+   Stat on a set O' of declared outputs, wrapped so that a Stat the core FLAGS is followed, when
+   the answer was "absent", by k FURTHER LOOKS at the path and then the probe.
      pcore            the erased history of observations -> (next operation, "probe this Stat")
                       (the flag means something only when the operation is `Stat p _`, p in O')
-     wrapP O' cid cr  the program: a left-to-right fold over the full history with state
-                      (erased history, pending probe operations); the answer of a Stat on O'
-                      enters the erased history masked as `OKind PExists`; the observations
-                      of the probe operations do not enter it at all
+     wrapP O' cid k cr  the program: a left-to-right fold over the full history with state
+                      (erased history, pending operations); the answer of a Stat on O'
+                      enters the erased history masked as `OKind PExists`; after a flagged one
+                      answered "absent" the pending operations are
+                        k times `Stat p _`  ;  Create p true cid  ;  Unlink p
+                      (k is a parameter of the wrapper: k = 1 is the real run_mapping -- the
+                      lstat of is_symlink --, k = 0 the code before the symbolic-link fix; audit 4,
+                      A3: with k fixed to 0 the real program was outside the class); the
+                      observations of the pending operations do not enter the erased history
      erase O' t       a trace without what may differ: every `Stat p _` with p in O' and every
                       adjacent pair `Create p _ _ :: Unlink p` with p in O' *)
 Definition pcore := list obs -> op * bool.
@@ -497,8 +507,13 @@ Definition hidden (O' : list path) (o : op) : bool :=
 Definition is_absent (x : obs) : bool :=
   match x with OKind PAbsent => true | _ => false end.
 
+(* what follows a flagged Stat on p that answered "absent" (the answer slot of the further
+   Stats is filled in by the file system: `fill`) *)
+Definition probe_ops (cid : Z) (k : nat) (p : path) : list op :=
+  repeat (Stat p PAbsent) k ++ [Create p true cid; Unlink p].
+
 (* state: (erased history, pending operations); x is what the operation just issued returned *)
-Definition pfeed (O' : list path) (cid : Z) (cr : pcore) (s : list obs * list op) (x : obs)
+Definition pfeed (O' : list path) (cid : Z) (k : nat) (cr : pcore) (s : list obs * list op) (x : obs)
   : list obs * list op :=
   match snd s with
   | _ :: r => (fst s, r)
@@ -507,17 +522,17 @@ Definition pfeed (O' : list path) (cid : Z) (cr : pcore) (s : list obs * list op
       | (Stat p _, fl) =>
           if mem p O'
           then (fst s ++ [OKind PExists],
-                if fl && is_absent x then [Create p true cid; Unlink p] else [])
+                if fl && is_absent x then probe_ops cid k p else [])
           else (fst s ++ [x], [])
       | _ => (fst s ++ [x], [])
       end
   end.
 Definition pnext (cr : pcore) (s : list obs * list op) : op :=
   match snd s with o :: _ => o | [] => fst (cr (fst s)) end.
-Definition pstate (O' : list path) (cid : Z) (cr : pcore) (h : list obs) : list obs * list op :=
-  fold_left (pfeed O' cid cr) h ([], []).
-Definition wrapP (O' : list path) (cid : Z) (cr : pcore) : program :=
-  fun h => pnext cr (pstate O' cid cr h).
+Definition pstate (O' : list path) (cid : Z) (k : nat) (cr : pcore) (h : list obs) : list obs * list op :=
+  fold_left (pfeed O' cid k cr) h ([], []).
+Definition wrapP (O' : list path) (cid : Z) (k : nat) (cr : pcore) : program :=
+  fun h => pnext cr (pstate O' cid k cr h).
 
 Fixpoint erase (O' : list path) (t : list op) : list op :=
   match t with
